@@ -76,7 +76,7 @@ def run(tier, replay):
                 if x["a"] == "shell":
                     shells[x["c"]] = shells.get(x["c"], 0) + 1
             noshell = any(x["a"] == "close" and shells.get(x["c"], 0) == 0 for x in c["hist"])
-            return noshell or any(v > 1 for v in shells.values()) or "authfail" in acts or "otherchannel" in acts or "channelburst" in acts or "badrequest" in acts
+            return noshell or any(v > 1 for v in shells.values()) or "authfail" in acts or "otherchannel" in acts or "channelburst" in acts or "accepterror" in acts or "badrequest" in acts
         cases.sort(key=lambda c: not interesting(c))
         cases = cases[:(45 if tier == "quick" else 400)]
         # a burst: Max+2 TCP connections before any handshake
@@ -88,6 +88,10 @@ def run(tier, replay):
         for sd in (21, 22, 23):
             cases.append({"id": 0, "max": 2, "seed": sd, "hist": [{"a": a, "c": 1, "counter": 0, "refused": False}
                                                                   for a in ("connect", "auth", "shell", "channelburst", "close")]})
+        # an accept that fails, then connections up to the limit and one more
+        for sd in (31, 32):
+            cases.append({"id": 0, "max": 2, "seed": sd, "hist": [{"a": a, "c": c, "counter": 0, "refused": False} for a, c in
+                          (("connect", 1), ("accepterror", 2), ("connect", 2), ("auth", 1), ("auth", 2), ("accepterror", 3), ("connect", 3), ("close", 1), ("close", 2))]})
         for i, c in enumerate(cases):
             c["id"] = i + 1
         cj, oj = os.path.join(wd, "cases.json"), os.path.join(wd, "out.json")
